@@ -172,6 +172,9 @@ func (g *Gen) loopEffects(li loopInfo, h *ssa.BasicBlock) loopEffects {
 						if g.isSkippable(&s.Call) {
 							continue
 						}
+						if os.Getenv("GOVC_DEBUG_LOOP") != "" {
+							fmt.Fprintf(os.Stderr, "loop havoc-all: %s calls %s without contract\n", f.Name(), s.Call.Value.String())
+						}
 						le.allHeap, le.allGhost, le.maps = true, true, true
 						continue
 					}
@@ -184,6 +187,10 @@ func (g *Gen) loopEffects(li loopInfo, h *ssa.BasicBlock) loopEffects {
 							le.ghosts[m] = true
 						case strings.HasPrefix(m, "mem("):
 							le.elems = true
+						case strings.HasPrefix(m, "sink("):
+							le.elems = true
+							g.bufLenArr(nil, true)
+							le.fields[bufLenKey] = true
 						case strings.HasPrefix(m, "map("):
 							le.maps = true
 						case m == "heap":
@@ -222,6 +229,15 @@ func (g *Gen) memModRefs(st *State) []string {
 func (g *Gen) havocHs(st *State, written []string, all bool) {
 	old := g.hsGet(st)
 	nw := g.newSym("Hs", "(Array Int (Array Int Int))")
+	if all {
+		// objects allocated by this function that were never handed out (passed to a non-pure callee,
+		// stored into the heap or a global) cannot be reached by anybody else: their arrays are kept
+		for _, r := range st.refs {
+			if st.fresh[r] && !st.esc[r] {
+				g.assume(st, fmt.Sprintf("(= (select %s %s) (select %s %s))", nw, r, old, r))
+			}
+		}
+	}
 	if !all {
 		for _, r := range st.refs {
 			guard := "true"
@@ -230,6 +246,9 @@ func (g *Gen) havocHs(st *State, written []string, all bool) {
 				if w == r {
 					skip = true
 					break
+				}
+				if g.sinkRefs[w] != g.sinkRefs[r] {
+					continue // a sink's record and a backing array are different kinds of object
 				}
 				guard = and(guard, fmt.Sprintf("(not (= %s %s))", r, w))
 			}
@@ -267,6 +286,9 @@ func (g *Gen) havocAllFields(st *State) {
 	for _, k := range sortedKeysS(g.heapSort) {
 		g.havocField(st, k)
 	}
+	// fields that no instruction or clause has mentioned yet are havocked as well (see State.epochs)
+	g.fresh++
+	st.epochs = []epochAlt{{"true", fmt.Sprint(g.fresh)}}
 }
 
 func sortedKeysS(m map[string]string) []string {
@@ -337,6 +359,7 @@ func (g *Gen) invEnv() map[string]Val {
 func (g *Gen) execFunc(fn *ssa.Function, st *State, top bool, start *ssa.BasicBlock) (*State, []Val) {
 	li := findLoops(fn)
 	in := map[*ssa.BasicBlock][]*State{}
+	fromEntry := start == nil
 	if start == nil {
 		start = fn.Blocks[0]
 	}
@@ -491,6 +514,9 @@ func (g *Gen) execFunc(fn *ssa.Function, st *State, top bool, start *ssa.BasicBl
 	}
 	if len(rets) == 0 {
 		return nil, nil
+	}
+	if top && fromEntry && g.c.Inject == "" {
+		return nil, nil // postconditions were checked at each return; nobody needs the merged exit state
 	}
 	var sts []*State
 	for _, r := range rets {
